@@ -15,7 +15,7 @@
         open spec fn dec_stop(rest: Seq<u8>) -> bool { rest.len() == 0 || (match <zvt_builder::encoding::Default as zvt_builder::encoding::Encoding<zvt_builder::Tag>>::spec_dec(rest) { None => true, Some((t, _)) => t.0 != 6u16 }) }
         /// the tag loop is specified by totality and frame clauses only
         open spec fn functional() -> bool { false }
-        //@ fn exp:zvt | impl zvt_builder::encoding::Encoding<RequestForData> for zvt_builder::encoding::Default | encode | mod=feig::packets props=C03
+        //@ fn exp:zvt | impl zvt_builder::encoding::Encoding<RequestForData> for zvt_builder::encoding::Default | encode | mod=feig::packets props=C03,~C01
         //@ end
         //@ fn exp:zvt | impl zvt_builder::encoding::Encoding<RequestForData> for zvt_builder::encoding::Default | decode | mod=feig::packets all-loops props=C02,C14
         //@ loop 0
@@ -87,7 +87,7 @@
         open spec fn dec_stop(rest: Seq<u8>) -> bool { rest.len() == 0 || (match <zvt_builder::encoding::Default as zvt_builder::encoding::Encoding<zvt_builder::Tag>>::spec_dec(rest) { None => true, Some((t, _)) => true }) }
         /// the tag loop is specified by totality and frame clauses only
         open spec fn functional() -> bool { false }
-        //@ fn exp:zvt | impl zvt_builder::encoding::Encoding<CVendFunctionsEnhancedSystemInformationCompletion> for zvt_builder::encoding::Default | encode | mod=feig::packets props=C03
+        //@ fn exp:zvt | impl zvt_builder::encoding::Encoding<CVendFunctionsEnhancedSystemInformationCompletion> for zvt_builder::encoding::Default | encode | mod=feig::packets props=C03,~C01
         //@ end
         //@ fn exp:zvt | impl zvt_builder::encoding::Encoding<CVendFunctionsEnhancedSystemInformationCompletion> for zvt_builder::encoding::Default | decode | mod=feig::packets all-loops props=C02,C14
         //@ loop 0
@@ -153,7 +153,7 @@
         open spec fn dec_stop(rest: Seq<u8>) -> bool { rest.len() == 0 || (match <zvt_builder::encoding::Default as zvt_builder::encoding::Encoding<zvt_builder::Tag>>::spec_dec(rest) { None => true, Some((t, _)) => t.0 != 6u16 }) }
         /// the tag loop is specified by totality and frame clauses only
         open spec fn functional() -> bool { false }
-        //@ fn exp:zvt | impl zvt_builder::encoding::Encoding<WriteFile> for zvt_builder::encoding::Default | encode | mod=feig::packets props=C03
+        //@ fn exp:zvt | impl zvt_builder::encoding::Encoding<WriteFile> for zvt_builder::encoding::Default | encode | mod=feig::packets props=C03,~C01
         //@ end
         //@ fn exp:zvt | impl zvt_builder::encoding::Encoding<WriteFile> for zvt_builder::encoding::Default | decode | mod=feig::packets all-loops props=C02,C14
         //@ loop 0
@@ -225,7 +225,7 @@
         open spec fn dec_stop(rest: Seq<u8>) -> bool { rest.len() == 0 || (match <zvt_builder::encoding::Default as zvt_builder::encoding::Encoding<zvt_builder::Tag>>::spec_dec(rest) { None => true, Some((t, _)) => t.0 != 6u16 }) }
         /// the tag loop is specified by totality and frame clauses only
         open spec fn functional() -> bool { false }
-        //@ fn exp:zvt | impl zvt_builder::encoding::Encoding<ChangeConfiguration> for zvt_builder::encoding::Default | encode | mod=feig::packets props=C03
+        //@ fn exp:zvt | impl zvt_builder::encoding::Encoding<ChangeConfiguration> for zvt_builder::encoding::Default | encode | mod=feig::packets props=C03,~C01
         //@ end
         //@ fn exp:zvt | impl zvt_builder::encoding::Encoding<ChangeConfiguration> for zvt_builder::encoding::Default | decode | mod=feig::packets all-loops props=C02,C14
         //@ loop 0
@@ -297,7 +297,7 @@
         open spec fn dec_stop(rest: Seq<u8>) -> bool { rest.len() == 0 || (match <zvt_builder::encoding::Default as zvt_builder::encoding::Encoding<zvt_builder::Tag>>::spec_dec(rest) { None => true, Some((t, _)) => true }) }
         /// the tag loop is specified by totality and frame clauses only
         open spec fn functional() -> bool { false }
-        //@ fn exp:zvt | impl zvt_builder::encoding::Encoding<CVendFunctions> for zvt_builder::encoding::Default | encode | mod=feig::packets props=C03
+        //@ fn exp:zvt | impl zvt_builder::encoding::Encoding<CVendFunctions> for zvt_builder::encoding::Default | encode | mod=feig::packets props=C03,~C01
         //@ end
         //@ fn exp:zvt | impl zvt_builder::encoding::Encoding<CVendFunctions> for zvt_builder::encoding::Default | decode | mod=feig::packets all-loops props=C02,C14
         //@ loop 0
@@ -363,7 +363,7 @@
         open spec fn dec_stop(rest: Seq<u8>) -> bool { rest.len() == 0 || (match <zvt_builder::encoding::Default as zvt_builder::encoding::Encoding<zvt_builder::Tag>>::spec_dec(rest) { None => true, Some((t, _)) => t.0 != 6u16 }) }
         /// the tag loop is specified by totality and frame clauses only
         open spec fn functional() -> bool { false }
-        //@ fn exp:zvt | impl zvt_builder::encoding::Encoding<WriteData> for zvt_builder::encoding::Default | encode | mod=feig::packets props=C03
+        //@ fn exp:zvt | impl zvt_builder::encoding::Encoding<WriteData> for zvt_builder::encoding::Default | encode | mod=feig::packets props=C03,~C01
         //@ end
         //@ fn exp:zvt | impl zvt_builder::encoding::Encoding<WriteData> for zvt_builder::encoding::Default | decode | mod=feig::packets all-loops props=C02,C14
         //@ loop 0
